@@ -28,7 +28,7 @@ From V Require Import Model.ZMap Model.Quorum Model.Voting Model.VotingRef Model
   Proofs.NoFail Proofs.AgreementU Proofs.FameInv Proofs.FamousSet Proofs.DecidedFlag Proofs.RoundReceived
   Proofs.BlockAgree Proofs.AgreementWitness Proofs.WindowWitness
   Model.Window Proofs.WindowStable Proofs.GapWindow Proofs.RoundAgreeD Proofs.ShrinkWitness
-  Model.VotingRefD Proofs.VotingProofsD Proofs.RoundOrder Proofs.CInvRunD Proofs.ViewOk Proofs.ViewOkD Proofs.SameHistoryD Proofs.AgreementD Proofs.FameInvD Proofs.LateWitnessD Proofs.FamousSetD Proofs.DecidedFlagD Proofs.RoundReceived Proofs.RoundReceivedD Proofs.Undetermined Proofs.UndeterminedD Proofs.BlockAgreeD Proofs.BlockPeersD.
+  Model.VotingRefD Proofs.VotingProofsD Proofs.RoundOrder Proofs.CInvRunD Proofs.ViewOk Proofs.ViewOkD Proofs.SameHistoryD Proofs.AgreementD Proofs.FameInvD Proofs.LateWitnessD Proofs.FamousSetD Proofs.DecidedFlagD Proofs.RoundReceived Proofs.RoundReceivedD Proofs.Undetermined Proofs.UndeterminedD Proofs.BlockAgreeD Proofs.BlockPeersD Proofs.FrameAgreeD.
 Import ListNotations.
 Open Scope Z_scope.
 
@@ -704,7 +704,11 @@ Print Assumptions C01_round_received_complete_dynamic.
        are prefix-comparable (C01_agreement_prefix_dynamic_gap).  The timestamp is the median over the timestamps of
        the famous witnesses of the round received (C18), which agree as sets; the peers field is the table entry of the
        round received (C01_block_peers_dynamic), and the tables agree.
-   NOT compared (unlike the static C01_agreement): the frame hash (roots, per-frame peer-set history).  Without the distance bound the statement is false: C01_agreement_dynamic_refuted,
+   (4) THE FRAMES AGREE TOO, hence the whole 7-tuple of the static C01_agreement: C01_agreement_full_dynamic_gap,
+       C01_agreement_full_prefix_dynamic_gap (Proofs/FsvD.v, FrameD.v, FrameAgreeD.v).  The frame of round R is built
+       exactly once, while R is processed: its table snapshot is genesis replayed over the delivered blocks with
+       round-received below R; repertoire and first rounds are a function of that snapshot; its roots are a pure
+       function of the stored events, the frames of the lower rounds and the snapshot.  Without the distance bound the statement is false: C01_agreement_dynamic_refuted,
    C01_dynamic_fork_by_scheduling (open known finding C01-window-fork).  With the pre-fix fame quorum it was false even under the bound:
    C01_fame_threshold_regression. *)
 Theorem C01_tables_agree_dynamic : forall all genesis self1 self2 oracle1 oracle2 ops1 ops2,
@@ -762,6 +766,38 @@ Proof.
   exact (fun all g s1 s2 o1 o2 ops1 ops2 ID SK FF => blocks_prefix_gap all g ID SK FF s1 s2 o1 o2 ops1 ops2).
 Qed.
 Print Assumptions C01_agreement_prefix_dynamic_gap.
+
+(* ... and in ALL fields, the frame included: the statement of C01_agreement with the distance bound (and non-failure)
+   in place of [no_accept] *)
+Theorem C01_agreement_full_dynamic_gap : forall all genesis self1 self2 oracle1 oracle2 ops1 ops2 k d1 d2,
+  ids_determine all -> sigkeys_determine all -> fork_free all -> self1 <> -1 -> self2 <> -1 ->
+  Forall (hop_ok all) ops1 -> Forall (hop_ok all) ops2 ->
+  gap_runb (init_hg self1 genesis oracle1) ops1 = true -> gap_runb (init_hg self2 genesis oracle2) ops2 = true ->
+  let st1 := hrun (init_hg self1 genesis oracle1) ops1 in
+  let st2 := hrun (init_hg self2 genesis oracle2) ops2 in
+  failed st1 = false -> failed st2 = false ->
+  nth_error (delivered st1) k = Some d1 -> nth_error (delivered st2) k = Some d2 ->
+  (b_index d1, b_rr d1, b_ts d1, b_txs d1, b_itxs d1, b_frame d1, b_peers d1) =
+  (b_index d2, b_rr d2, b_ts d2, b_txs d2, b_itxs d2, b_frame d2, b_peers d2).
+Proof.
+  exact (fun all g s1 s2 o1 o2 ops1 ops2 k d1 d2 ID SK FF S1 S2 H1 H2 B1 B2 F1 F2 =>
+           blocks_agree_gap_cbody all g ID SK FF s1 s2 o1 o2 ops1 ops2 S1 S2 H1 H2 B1 B2 F1 F2 k d1 d2).
+Qed.
+Print Assumptions C01_agreement_full_dynamic_gap.
+
+Theorem C01_agreement_full_prefix_dynamic_gap : forall all genesis self1 self2 oracle1 oracle2 ops1 ops2,
+  ids_determine all -> sigkeys_determine all -> fork_free all -> self1 <> -1 -> self2 <> -1 ->
+  Forall (hop_ok all) ops1 -> Forall (hop_ok all) ops2 ->
+  gap_runb (init_hg self1 genesis oracle1) ops1 = true -> gap_runb (init_hg self2 genesis oracle2) ops2 = true ->
+  let st1 := hrun (init_hg self1 genesis oracle1) ops1 in
+  let st2 := hrun (init_hg self2 genesis oracle2) ops2 in
+  failed st1 = false -> failed st2 = false ->
+  (length (delivered st1) <= length (delivered st2))%nat ->
+  map cbody (delivered st1) = firstn (length (delivered st1)) (map cbody (delivered st2)).
+Proof.
+  exact (fun all g s1 s2 o1 o2 ops1 ops2 ID SK FF => blocks_prefix_gap_cbody all g ID SK FF s1 s2 o1 o2 ops1 ops2).
+Qed.
+Print Assumptions C01_agreement_full_prefix_dynamic_gap.
 
 (* the peers field of a delivered block, in EVERY run that has not failed (no distance bound, no second node): it is
    the validator set the table of the node gives for the block's round-received, which is genesis modified, in block
